@@ -3,15 +3,17 @@ from ..rules import pickling as P
 from ..rules import sync as S
 
 EXPLANATION = (
-    "Static analysis. Decides: on every path of the customizable pickler's constructor the table installed on the instance "
-    "is FRESH (dict(...)/.copy()/display), the installation dominates every per-instance registration, only the fresh local "
-    "table is mutated, and every other write in pickler code targets the instance's own table (R-PICKLER-FRESH); loky's "
-    "process-wide table is written only by register(), called only from import-time code of the reduction modules "
-    "(R-REGISTER-WHO); job reducers flow to the call queue and result reducers (defaulting to job) to the result queue, "
-    "each queue keeps them, ships them in its pickled state and serialises with its own (R-REDUCERS-FLOW, R-STATE-SYM); the "
-    "call item records the pickler name at submit and the worker re-selects it before running the task (R-PICKLER-NAME); "
-    "each built-in reducer returns (rebuild, args) matching the rebuild function's arity and parameter roles "
-    "(R-REDUCE-ARITY). Not decided: equality of behaviour after a round trip (runtime values)."
+    "Static analysis. Decides: on every path of the customizable pickler's constructor the table installed on the "
+    'instance is FRESH (dict(...)/.copy()/display), the installation dominates every per-instance registration, only '
+    "the fresh local table is mutated, and every other write in pickler code targets the instance's own table "
+    "(R-PICKLER-FRESH); loky's process-wide table is written only by register(), called only from import-time code of "
+    'the reduction modules (R-REGISTER-WHO); job reducers flow to the call queue and result reducers (defaulting to '
+    'job) to the result queue, each queue keeps them, ships them in its pickled state and serialises with its own '
+    '(R-REDUCERS-FLOW, R-STATE-SYM); the call item records the pickler name at submit and the worker re-selects it '
+    'before running the task (R-PICKLER-NAME); each built-in reducer returns (rebuild, args) matching the rebuild '
+    "function's arity and parameter roles (R-REDUCE-ARITY). Also decided: a reducer registered for a bound builtin "
+    'callable type ships __self__ (R-REDUCE-TYPES, types folded with the analysing interpreter). Not decided: '
+    'equality of behaviour after a round trip (runtime values).'
 )
 
 
